@@ -364,6 +364,7 @@ pub fn run_c11(seed: u64, n: usize, out: &mut Out, exhaustive: Option<i64>) {
     let base = Rng::new(seed ^ 0xC11);
     let ints = int_types();
     let scalars = scalar_types();
+    direct_cases(out, &scalars, "c11");
     let id = std::cell::Cell::new(0usize);
     let skipped = std::cell::Cell::new(0u64);
     let emit = |out: &mut Out, te: &TyEntry, src: &str| {
@@ -425,6 +426,9 @@ pub fn run_c11(seed: u64, n: usize, out: &mut Out, exhaustive: Option<i64>) {
         "x = b\"bytes\"", "x = b'b'", "x = c\"cstr\"", "x()", "x(a)", "x(a = 1, b)", "x(\"lit\")", "x(a b)", "x = a::b", "x = foo",
         "x = 1 + 2", "x = [1, 2]", "x = -5", "x = \"-5\"", "x = -1.5", "x = (5)", "x = \"a/b.txt\"", "x = 0.1", "x = \"0.1\"",
         "x = 16777217.0", "x = \"16777217\"", "x = 9007199254740993.0", "x = \"  1\"",
+        // a suffix that disagrees with the target type: only the digits count
+        "x = 0.1f32", "x = 0.1f64", "x = 16777217.0f32", "x = 1e39f32", "x = 1e39f64", "x = 3.0e-46f32", "x = 0.30000000000000004f32",
+        "x = 5u8", "x = 300u8", "x = 5i64", "x = -5i8", "x = 1_000usize", "x = 0x10u16", "x = 7f32", "x = 7f64",
     ];
     for te in &scalars {
         for f in FORMS {
@@ -453,6 +457,8 @@ pub fn run_c11(seed: u64, n: usize, out: &mut Out, exhaustive: Option<i64>) {
             for te in [&f32e, &f64e] {
                 emit(out, te, &format!("x = \"{}\"", sp));
                 emit(out, te, &format!("x = {}", sp));
+                emit(out, te, &format!("x = {}f32", sp));
+                emit(out, te, &format!("x = {}f64", sp));
             }
         }
         out.stat("float_midpoint_probes", 1);
@@ -481,6 +487,56 @@ pub fn random_meta_src(r: &mut Rng) -> String {
     }
 }
 
+/// every given type × the individual trait methods called directly (the routes `flatten`,
+/// `multiple` and hand-written code take around `from_meta`)
+pub fn direct_cases(out: &mut Out, types: &[TyEntry], prefix: &str) {
+    let mut id = 0usize;
+
+        use crate::types::Direct;
+        let lists: Vec<Vec<NestedMeta>> = ["", "a", "a = 1, b", "\"lit\"", "5", "a(b)", "true", "a = \"s\", a = \"t\""]
+            .iter()
+            .filter_map(|b| NestedMeta::parse_meta_list(b.parse().ok()?).ok())
+            .collect();
+        // (entry, call, a meta item carrying the same literals: source of the oracle rows)
+        let word_meta = parse_meta("x").unwrap();
+        let mut directs: Vec<(Sx, Direct, Meta)> = vec![(tagged("word", vec![]), Direct::Word, word_meta.clone())];
+        for (b, l) in ["", "a", "a = 1, b", "\"lit\"", "5", "a(b)", "true", "a = \"s\", a = \"t\""].iter().zip(lists.iter()) {
+            let m = parse_meta(&format!("x({})", b)).unwrap_or(word_meta.clone());
+            directs.push((tagged("list", l.iter().map(ser::nested).collect()), Direct::List(l.clone()), m));
+        }
+        for s in ["", "5", "true", "c", "hello", "-3", "1.5", "a::b"] {
+            let m = parse_meta(&format!("x = {:?}", s)).unwrap_or(word_meta.clone());
+            directs.push((tagged("string", vec![st(s)]), Direct::Str(s.to_string()), m));
+        }
+        for b in [true, false] {
+            directs.push((tagged("boolv", vec![boolean(b)]), Direct::Bool(b), word_meta.clone()));
+        }
+        for c in ['c', '5', 'é'] {
+            directs.push((tagged("charv", vec![nat(c as u128)]), Direct::Char(c), word_meta.clone()));
+        }
+        for l in ["5", "\"s\"", "true", "'c'", "1.5", "b\"x\"", "300", "-5"] {
+            if let Ok(lit) = syn::parse_str::<syn::Lit>(l) {
+                let m = parse_meta(&format!("x = {}", l)).unwrap_or(word_meta.clone());
+                directs.push((tagged("value", vec![ser::lit(&lit)]), Direct::Value(lit), m));
+            }
+        }
+        for e in ["5", "\"s\"", "a::b", "1 + 2", "[1, 2]", "-5", "(5)", "foo"] {
+            if let Ok(ex) = syn::parse_str::<syn::Expr>(e) {
+                let m = parse_meta(&format!("x = {}", e)).unwrap_or(word_meta.clone());
+                directs.push((tagged("expr", vec![ser::expr(&ex)]), Direct::Expr(ex), m));
+            }
+        }
+        out.stat("direct_entry_forms", directs.len() as u64);
+        for te in types {
+            for (sx, d, om) in &directs {
+                let case = tagged("fm", vec![te.ty.clone(), sx.clone(), oracle_with(om, &te.kinds)]);
+                let ans = (te.direct)(d);
+                out.case_id("fm", &format!("{}-d{}", prefix, id), &case, &ans);
+                id += 1;
+            }
+        }
+    }
+
 pub fn run_c12(seed: u64, n: usize, out: &mut Out) {
     let base = Rng::new(seed ^ 0xC12);
     let grid = wrapper_grid();
@@ -505,6 +561,7 @@ pub fn run_c12(seed: u64, n: usize, out: &mut Out) {
     }
     let metas: Vec<Meta> = fixed.iter().filter_map(|s| parse_meta(s)).collect();
     out.stat("fixed_forms", metas.len() as u64);
+    direct_cases(out, &grid, "c12");
     let per_type = (n / grid.len().max(1)).max(1);
     for (k, te) in grid.iter().enumerate() {
         let mut r = base.fork(k as u64);
@@ -571,14 +628,14 @@ pub fn run_c15b(seed: u64, n: usize, out: &mut Out) {
     out.stat("item_forms", metas.len() as u64);
     let mut id = 0usize;
     // exhaustive: every probe × every item form × {ok, failing}; n caps the random remainder
-    let exhaustive = n >= ps.len() * metas.len() * 2;
+    let exhaustive = n >= ps.len() * metas.len() * 3;
     for (mask, te) in &ps {
         let mut r = base.fork(*mask as u64);
-        for failing in [false, true] {
+        for failing in [0u8, 1, 2] {
             FAILING.with(|f| f.set(failing));
-            let ty = tagged("probe", vec![nat(*mask as u128), boolean(failing)]);
+            let ty = tagged("probe", vec![nat(*mask as u128), atom(["false", "true", "bundle"][failing as usize])]);
             let te = TyEntry { ty, ..te.clone() };
-            let k = if exhaustive { metas.len() } else { (n / (ps.len() * 2)).max(1) };
+            let k = if exhaustive { metas.len() } else { (n / (ps.len() * 3)).max(1) };
             for j in 0..k {
                 let m = if exhaustive { &metas[j] } else { r.pick(&metas) };
                 let (case, ans) = meta_case(&te, m);
@@ -595,7 +652,7 @@ pub fn run_c15b(seed: u64, n: usize, out: &mut Out) {
             }
         }
     }
-    FAILING.with(|f| f.set(false));
+    FAILING.with(|f| f.set(0));
 }
 
 // ---------------------------------------------------------------- C13
@@ -617,6 +674,8 @@ pub const SYN_VALUES: &[&str] = &[
     // rename rules and junk
     "snake_case", "camelCase", "PascalCase", "SCREAMING_SNAKE_CASE", "kebab-case", "lowercase", "Title Case", "", " ", "a b", "a,",
     "a::b, c", "a, b::c,",
+    // expressions that are themselves string literals: quoting them must un-quote exactly once
+    "\"a + b\"", "\"[1, 2]\"", "\"a::b\"", "\"0..5\"", "\"hello, world\"", "r#\"x\"#",
     // nesting to a practical depth: 48 parentheses, 48 nested calls, 48 nested arrays
     "((((((((((((((((((((((((((((((((((((((((((((((((5))))))))))))))))))))))))))))))))))))))))))))))))",
     "f(f(f(f(f(f(f(f(f(f(f(f(f(f(f(f(f(f(f(f(f(f(f(f(f(f(f(f(f(f(f(f(f(f(f(f(f(f(f(f(f(f(f(f(f(f(f(f(x))))))))))))))))))))))))))))))))))))))))))))))))",
@@ -628,6 +687,7 @@ pub const LIT_SPELLINGS: &[&str] = &["5", "5u8", "0x1f", "1.5", "1e3f32", "\"s\"
 pub fn run_c13(seed: u64, n: usize, out: &mut Out) {
     let base = Rng::new(seed ^ 0xC13);
     let tys = syn_types();
+    direct_cases(out, &tys, "c13");
     let mut srcs: Vec<String> = vec!["x".into(), "x()".into(), "x(a, b::c)".into(), "x(a, \"s\")".into(), "x(a = 1)".into(), "x(::a, r#b)".into(),
         "x(a, b, a)".into(), "x(a::b, a::b)".into(), "x(a, a, a, b)".into(), "x(1, 1)".into(), "x(\"s\", \"s\")".into()];
     for v in SYN_VALUES {
@@ -643,6 +703,34 @@ pub fn run_c13(seed: u64, n: usize, out: &mut Out) {
     for s in &srcs {
         if let Some(m) = parse_meta(s) {
             metas.push(group_value(&m, 1));
+            // two layers of invisible groups (a value forwarded through two macro_rules! layers): only for
+            // a subset, to keep the exhaustive product small
+            if metas.len() % 7 == 0 {
+                metas.push(group_value(&m, 2));
+            }
+            // array values: invisible groups around the *elements*
+            if let Meta::NameValue(nv) = &m {
+                if let syn::Expr::Array(arr) = &nv.value {
+                    if !arr.elems.is_empty() {
+                        for depth in [1usize, 2] {
+                            let mut arr2 = arr.clone();
+                            for (i, e) in arr2.elems.iter_mut().enumerate() {
+                                if i % 2 == 0 {
+                                    let mut g = e.clone();
+                                    for _ in 0..depth {
+                                        let span = syn::spanned::Spanned::span(&g);
+                                        g = syn::Expr::Group(syn::ExprGroup { attrs: vec![], group_token: syn::token::Group { span }, expr: Box::new(g) });
+                                    }
+                                    *e = g;
+                                }
+                            }
+                            let mut nv2 = nv.clone();
+                            nv2.value = syn::Expr::Array(arr2);
+                            metas.push(Meta::NameValue(nv2));
+                        }
+                    }
+                }
+            }
             metas.push(m);
         }
     }
